@@ -1315,7 +1315,10 @@ const PATTERN_KINDS: [&str; 5] = ["varlen", "fixed8", "mixed", "empty", "big"];
 /// * `large` — mostly 20-byte records, record 10 of every 64 has 5000 bytes (> the 4096-byte copy threshold), the last
 ///   record of every 64-block has 70 000 bytes (> 64 KiB: block samples beyond 16 bits, one record > one chunk);
 /// * `dup` — four distinct records repeated (deduplication in SimpleZip, equal neighbours in the offset index).
-const AUDIT_PATTERN_KINDS: [&str; 4] = ["kilo1040", "kilo1041", "large", "dup"];
+/// * `sum4096` / `sum65536` (`…c`: 4 bytes less per record, for configurations that append a 4-byte checksum) — four
+///   records whose stored bytes add up to EXACTLY 2^12 / 2^16, followed by empty records: the last in-block offset delta
+///   equals 2^offset_width of the memory-optimised / default offset index (a builder must refuse it or store it faithfully).
+const AUDIT_PATTERN_KINDS: [&str; 8] = ["kilo1040", "kilo1041", "large", "dup", "sum4096", "sum4096c", "sum65536", "sum65536c"];
 const AUDIT_PATTERN_LENGTHS: [usize; 4] = [63, 64, 65, 129];
 const PATTERN_LENGTHS: [usize; 10] = [63, 64, 65, 127, 128, 129, 255, 256, 257, 1000];
 
@@ -1338,6 +1341,10 @@ fn pattern_record(kind: &str, i: usize) -> Vec<u8> {
                 fill(20)
             }
         }
+        "sum4096" => fill(if i < 4 { 1024 } else { 0 }),
+        "sum4096c" => fill(if i < 4 { 1020 } else { 0 }),
+        "sum65536" => fill(if i < 4 { 16384 } else { 0 }),
+        "sum65536c" => fill(if i < 4 { 16380 } else { 0 }),
         "dup" => match i % 4 {
             0 => b"same record\n".to_vec(),
             1 => Vec::new(),
